@@ -1,7 +1,15 @@
 #!/bin/bash
 # Build the Coq project (full .vo build) under a lock.  Usage: tools/coqbuild.sh [clean] [targets...]
+# Every file is compiled under a per-file timeout (VERIF_COQ_FILE_TIMEOUT, default 900 s).
 set -u
 cd "$(dirname "$0")/../coq" || exit 2
+FT=${VERIF_COQ_FILE_TIMEOUT:-900}
+# fast path without the lock: requested targets already up to date
+if [ "${1:-}" != "clean" ] && [ $# -gt 0 ] && [ -f Makefile ] && [ -f _CoqProject ]; then
+  { echo "-Q . DV"; echo "-arg -w -arg -notation-overridden,-deprecated-hint-without-locality,-deprecated-instance-without-locality"; find Base Model Proofs Props -name '*.v' | sort; } > /tmp/.cp.$$
+  if cmp -s /tmp/.cp.$$ _CoqProject && make -q "$@" >/dev/null 2>&1; then rm -f /tmp/.cp.$$; exit 0; fi
+  rm -f /tmp/.cp.$$
+fi
 exec 9>/tmp/.verif-coq.lock
 flock 9
 if [ "${1:-}" = "clean" ]; then
@@ -17,4 +25,4 @@ else
   rm -f _CoqProject.new
 fi
 [ -f Makefile ] || coq_makefile -f _CoqProject -o Makefile >/dev/null || exit 2
-timeout "${VERIF_COQ_TIMEOUT:-3000}" make -j"${VERIF_JOBS:-16}" "$@" 2>&1
+timeout "${VERIF_COQ_TIMEOUT:-3000}" make -j"${VERIF_JOBS:-16}" COQC="timeout $FT coqc" "$@" 2>&1
